@@ -7,6 +7,7 @@
 
 pub mod ct;
 pub mod pool;
+pub mod pset;
 pub mod mutate;
 
 use crate::engine::Tape;
